@@ -27,8 +27,11 @@ G: construct  every emitted plan is applied to the seed bytes (patches and trunc
 Drift (model of the constructor says OK / ELFError, the code the other one) is reported, never a violation.
 
 Constants were calibrated on the unchanged tree (quick and thorough plan sets, 16 seeds): the largest ratios observed
-among plans that are linear were reads/(size+1) = 3.7, bytes/(size+1) = 36, (peak - C_MEM)/size < 8; the bounds carry
-about x4 headroom over them."""
+were: plans that leave every loop bounded by the file: reads/(size+1) <= 2.7, bytes/(size+1) <= 24; walks that are still
+linear but repeat one record `file size` times (a count field set to the file size on a chain that stalls at its last
+record): up to 24 reads and 322 bytes per byte of file; walks driven by a count that is independent of the file size
+(2^15 .. 2^32-1 iterations): 20 .. 10^6 reads per byte.  The bounds are x2 over the largest linear walk (x18 / x27 over
+the first group); peak memory of bounded plans stayed below 430 KB, the constant C_MEM alone covers it."""
 import io
 import json
 import os
@@ -39,8 +42,8 @@ from . import core
 
 LEVEL = 'fault_enumeration'
 
-K_READS = 16            # read() calls per byte of file
-K_BYTES = 160           # bytes read per byte of file
+K_READS = 48            # read() calls per byte of file
+K_BYTES = 640           # bytes read per byte of file
 K_MEM = 32              # peak traced bytes per byte of file ...
 C_MEM = 1 << 20         # ... plus a constant (parser construction: about 100 KiB on the unchanged tree)
 WALL_CTOR = 20.0        # generous wall backstops (seconds); the deterministic measures decide long before
@@ -153,8 +156,8 @@ def execute(data, measure_mem=False, budget=True):
     from elftools.elf.elffile import ELFFile
     from elftools.common.exceptions import ELFError
     n = len(data)
-    # calibration (budget=False): bounds x25 so that the distribution of the linear plans becomes visible
-    f = 1 if budget else 25
+    # calibration (budget=False): bounds x10 so that the distribution of the linear plans becomes visible
+    f = 1 if budget else 10
     st = CountingStream(data, f * K_READS * (n + 1), f * K_BYTES * (n + 1))
     res = {'n': n, 'ctor': None, 'exc': None, 'msg': None, 'enum': None, 'excs': [], 'reads': 0, 'bytes': 0, 'peak': -1}
     if measure_mem:
@@ -264,8 +267,10 @@ def minimal_witnesses(cases):
         for key in sorted(d, key=lambda k: (len(k), sorted(k))):
             if not any(o < key for o in d):
                 v = d[key]
-                wid = '%s:%s' % (w, ','.join('%s%s=%s' % (f, ('[%s]' % wh) if wh else '', c) for f, wh, c in sorted(key)))
-                out.append({'id': wid, 'walker': w, 'n': v['n'], 'needs': v.get('needs', ''), 'faults': v['faults']})
+                # the signature names the loop (walker) and the fields that drive it past the bound, not their classes
+                wid = '%s:%s' % (w, '+'.join(sorted({f for f, _, _ in key})))
+                out.append({'id': wid, 'walker': w, 'n': v['n'], 'needs': v.get('needs', ''), 'faults': v['faults'],
+                            'set': sorted('%s%s=%s' % (f, ('[%s]' % wh) if wh else '', c) for f, wh, c in key)})
     return out
 
 
@@ -452,10 +457,12 @@ def check(run):
         add(s, ['unmodified'], [], -1, ['OK', 'done', ''], [])
     nbase = len(meta)
     for (s, f), v in sorted(plans.items()):
-        add(s, list(f), v['p'], v['t'], v['m'], [sftab[s][i] for i in v['sf'] if i])
+        add(s, list(f), v['p'], v['t'], v['m'], [sftab[s][i] for i in v['sf'] if i] + list(v.get('h', [])))
     # directed witness plans
-    wit_report = {w['id']: {'walker': w['walker'], 'n': w['n'], 'concretised_on': 0, 'reproduced_on': [], 'faults': sorted(
-        '%s%s=%s' % (f['f'], ('[%s]' % f['which']) if f['which'] else '', f['c']) for f in w['faults'])} for w in wits}
+    wit_report = {}
+    for w in wits:
+        wit_report.setdefault(w['id'], {'walker': w['walker'], 'minimal_fault_sets': [], 'concretised_on': 0, 'reproduced_on': []})
+        wit_report[w['id']]['minimal_fault_sets'].append(w['set'])
     for w in wits:
         for s in sorted(_SEEDS):
             for chosen in concretise_witness(w, list(sftab.get(s, {}).values())):
@@ -467,7 +474,7 @@ def check(run):
         idx = len(meta)
         meta.append({'s': None, 'raw': b})
         jobs.append((idx, None, b, None, False))
-    rmodel = {v['i']: v['m'] for v in run.cases(res_rand.out) if v.get('k') == 'rand'}
+    rmodel = {v['i']: v for v in run.cases(res_rand.out) if v.get('k') == 'rand'}
     if len(rmodel) != len(rand):
         raise core.MachineryError('outcome model verdicts for %d of %d random strings' % (len(rmodel), len(rand)))
 
@@ -485,6 +492,7 @@ def check(run):
         if r['ctor'] != 'OK' or r['enum'] != 'ok':
             raise core.MachineryError('unmodified seed %s does not pass: %r' % (sinfo[meta[idx]['s']]['id'], r))
     ndrift = 0
+    drift = {}
     stats = {'ctor': {}, 'enum': {}, 'enum_exception_classes': {}, 'max_reads_ratio': 0.0, 'max_bytes_ratio': 0.0, 'max_mem_ratio': 0.0}
     cal = []
 
@@ -517,10 +525,11 @@ def check(run):
         if r['ctor'] in ('OK', 'ELFError'):
             if model and model[0] != r['ctor']:
                 ndrift += 1
-                if len(run.drift) < 40:
-                    run.drift.append('constructor model says %s at step %s (%s), the code answers %s%s: %s' % (
-                        model[0], model[1], model[2], r['ctor'], (' (' + r['exc'] + ')') if r['exc'] else '',
-                        ('%s %s' % (sinfo[mt['s']]['id'], '+'.join(mt['f']))) if mt['s'] is not None else 'random string ' + core.b64(mt['raw'])[:60]))
+                k = (model[0], model[1], model[2], r['ctor'], r['exc'])
+                d = drift.setdefault(k, [0, None])
+                d[0] += 1
+                if d[1] is None:
+                    d[1] = ('%s %s' % (sinfo[mt['s']]['id'], '+'.join(mt['f']))) if mt['s'] is not None else 'random string ' + core.b64(mt['raw'])[:80]
             return
         step = '%s:%s' % (model[1], model[2]) if model else 'witness'
         if r['ctor'] == 'exception':
@@ -558,14 +567,18 @@ def check(run):
     for i, idx in enumerate(range(nplans, len(meta))):
         mt, r = meta[idx], results[idx]
         tally(r)
-        model = rmodel[i + 1]
+        model = rmodel[i + 1]['m']
         run.count(core.digest(['rand', core.b64(mt['raw'])]), nontrivial=model[1] not in ('magic',),
                   sample={'random_string_b64': core.b64(mt['raw']), 'model': model, 'constructor': r['ctor']} if i == 17 else None)
         mt['f'] = ['random']
         construct_verdict(mt, r, model)
         if r['ctor'] == 'OK' and r['enum'] != 'ok':
-            run.mismatch('terminate', 'random:%s' % model[1], case_of(mt, r), 'the battery ends within the work bound',
+            w = explain(rmodel[i + 1]['h'], wits, set(rmodel[i + 1]['traits']))
+            run.mismatch('terminate', w['id'] if w else 'unexplained:random:%s' % model[1], case_of(mt, r), 'the battery ends within the work bound',
                          '%s: reads=%d bytes=%d' % (r['enum'], r['reads'], r['bytes']))
+    for k, (cnt, example) in sorted(drift.items(), key=lambda kv: -kv[1][0]):
+        run.drift.append('constructor model says %s at step "%s" (%s), the code answers %s%s: %d cases, e.g. %s' % (
+            k[0], k[1], k[2], k[3], (' (' + k[4] + ')') if k[4] else '', cnt, example))
     run.validated = run.evaluations
     run.extra.update({'plans': nplans - nbase, 'directed_witness_plans': sum(1 for m in meta[:nplans] if m.get('directed')),
                       'random_strings': len(rand), 'seeds': [sinfo[s]['id'] for s in sorted(sinfo)], 'outcomes': stats,
@@ -575,6 +588,9 @@ def check(run):
         run.notes.append('walker witness %s: concretised on %d seed images, reproduced on %s' % (
             wid, rep['concretised_on'], ', '.join(rep['reproduced_on']) or 'none'))
     if calibrate:
+        if os.path.isdir(os.environ['VERIF_C19_CALIBRATE']):
+            with open(os.path.join(os.environ['VERIF_C19_CALIBRATE'], 'c19_calibration_%s.json' % run.tier), 'w') as f:
+                json.dump(cal, f)
         for name, col in (('reads', 0), ('bytes', 1)):
             cal.sort(key=lambda x: -x[col])
             print('--- top %s ratios' % name)
